@@ -32,6 +32,7 @@ type specEnv struct {
 	selfType types.Type
 	old      bool
 	oldHeap  map[string]T
+	strictOld bool // at(L, e): a heap that was not materialised when the snapshot was taken is an error
 	where    string
 	fn       *ssa.Function // for free-variable / parameter types
 }
@@ -223,6 +224,9 @@ func (e *specEnv) heapOf(key string, sort Sort) T {
 		if e.oldHeap != nil {
 			if t, ok := e.oldHeap[key]; ok {
 				return t
+			}
+			if e.strictOld {
+				panic(fmt.Sprintf("at(): heap %s was not in the loop-head snapshot", key))
 			}
 			// untouched before the snapshot: entry symbol
 			return e.s.heap0[key]
@@ -430,6 +434,12 @@ func (e *specEnv) eval(ex ast.Expr) (sval, error) {
 			b := new(big.Int)
 			b.SetString(n.Value, 0)
 			return sval{lit: b}, nil
+		case token.CHAR:
+			r, _, _, err := strconv.UnquoteChar(n.Value[1:len(n.Value)-1], '\'')
+			if err != nil {
+				return sval{}, fmt.Errorf("character literal %s", n.Value)
+			}
+			return sval{lit: big.NewInt(int64(r))}, nil
 		case token.FLOAT:
 			f, _ := strconv.ParseFloat(n.Value, 64)
 			return sval{flit: &f, v: scalar(FloatLit(f)), typ: types.Typ[types.Float64]}, nil
@@ -763,6 +773,21 @@ func (e *specEnv) evalCall(n *ast.CallExpr) (sval, error) {
 		sub := *e
 		sub.old = true
 		return sub.eval(n.Args[0])
+	case "at": // at(L, e): heap reads of e as they were at the head of loop L in its current iteration
+		lit, ok := n.Args[0].(*ast.BasicLit)
+		if !ok || e.frame == nil {
+			return sval{}, fmt.Errorf("at(loop, expr)")
+		}
+		ord, _ := strconv.Atoi(lit.Value)
+		snap, ok := e.frame.loopHeads[ord]
+		if !ok {
+			return sval{}, fmt.Errorf("at(%d, ..): not inside that loop on this path", ord)
+		}
+		sub := *e
+		sub.old = true
+		sub.oldHeap = snap
+		sub.strictOld = true
+		return sub.eval(n.Args[1])
 	case "implies":
 		a, err := arg(0)
 		if err != nil {
@@ -896,6 +921,27 @@ func (e *specEnv) evalCall(n *ast.CallExpr) (sval, error) {
 		}
 		q := name
 		var t T
+		if in := body.v.T.S; pat == "" && strings.HasPrefix(in, "("+q+" (") {
+			// nested quantifiers of the same kind become one (so that one trigger covers all variables)
+			depth, end := 0, -1
+			start := len("(" + q + " ")
+			for i := start; i < len(in); i++ {
+				if in[i] == '(' {
+					depth++
+				} else if in[i] == ')' {
+					depth--
+					if depth == 0 {
+						end = i
+						break
+					}
+				}
+			}
+			if end > 0 {
+				binders := in[start+1 : end] // without the outer parentheses of the binder list
+				t = T{fmt.Sprintf("(%s ((%s %s) %s)%s", q, bv, so, binders, in[end+1:]), SBool}
+				return sval{v: scalar(t), typ: boolT}, nil
+			}
+		}
 		if pat != "" {
 			t = T{fmt.Sprintf("(%s ((%s %s)) (! %s%s))", q, bv, so, body.v.T.S, pat), SBool}
 		} else {
@@ -1121,6 +1167,28 @@ func (e *specEnv) evalCall(n *ast.CallExpr) (sval, error) {
 			return sval{}, fmt.Errorf("int() of sort %s", v.v.T.Sort)
 		}
 		return sval{v: scalar(x.floatToInt(e.s, v.v.T, types.Typ[types.Int])), typ: types.Typ[types.Int]}, nil
+	case "live": // live(x): the object x refers to exists (has been allocated) in the current state
+		v, err := arg(0)
+		if err != nil {
+			return sval{}, err
+		}
+		ref := v.v.T
+		if v.v.K == vSlice {
+			ref = v.v.Arr
+		}
+		if ref.Sort == SIface {
+			ref = mk(SInt, "iptr", ref)
+		}
+		return sval{v: scalar(Select(e.heapOf("alloc", SArray(SInt, SBool)), ref, SBool)), typ: boolT}, nil
+	case "bytesOf": // the content of a byte slice read as a string
+		v, err := arg(0)
+		if err != nil {
+			return sval{}, err
+		}
+		if v.v.K != vSlice {
+			return sval{}, fmt.Errorf("bytesOf needs a slice")
+		}
+		return sval{v: scalar(mk(SStr, "bytes_str", v.v.Arr)), typ: types.Typ[types.String]}, nil
 	case "buf": // ghost content of a string builder
 		v, err := arg(0)
 		if err != nil {
